@@ -361,7 +361,8 @@ def load(path, extra):
 def generate(path, fns, namespace, extra=(), imports=()):
     """Lean source text for the listed functions of one C file (raises Unsupported / KeyError)."""
     tu = load(path, list(extra))
-    out = ['-- GENERATED by tools/c2lean.py from ' + path + ' -- do not edit; rewritten on every check run']
+    import os
+    out = ['-- GENERATED by tools/c2lean.py from ' + '/'.join(path.split('/')[-2:]) + ' -- do not edit; rewritten on every check run']
     out += [f'import {i}' for i in imports]
     out += ['set_option linter.unusedVariables false', f'namespace {namespace}', '']
     for fn in fns:
